@@ -702,6 +702,57 @@ def desugar_iter_mut(body, rules):
     return out
 
 
+def desugar_closure_pattern(body, rules, specs):
+    """R24: a closure whose single parameter is a tuple pattern, `| ( a , b ) | E` in argument position, becomes
+    `| __cpK | [-> ( __cqK : T ) ensures P] { let ( a , b ) = __cpK ; E }` - the language's own desugaring of a pattern parameter
+    (Verus accepts only identifier parameters of closures).  `E` is copied token for token.  The return type and the `ensures`
+    clause are ghost annotations taken from the `closure K <type> ensures <expr>` directive (`__p` / `__q` name the parameter
+    and the result)."""
+    out = list(body)
+    i = 0
+    k = 0
+    while i < len(out):
+        t = out[i]
+        if t.s == "|" and i > 0 and out[i - 1].s in ("(", ",") and i + 1 < len(out) and out[i + 1].s == "(":
+            close = match_close(out, i + 1)
+            if close + 1 < len(out) and out[close + 1].s == "|":
+                pat = out[i + 1:close + 1]
+                # the closure body: a block, or an expression up to the closing parenthesis / comma of the enclosing call
+                b0 = close + 2
+                if out[b0].s == "{":
+                    b1 = match_close(out, b0) + 1
+                else:
+                    d, b1 = 0, b0
+                    while b1 < len(out):
+                        x = out[b1].s
+                        if x in OPEN:
+                            d += 1
+                        elif x in CLOSE:
+                            if d == 0:
+                                break
+                            d -= 1
+                        elif x == "," and d == 0:
+                            break
+                        b1 += 1
+                expr = out[b0:b1]
+                name, res = "__cp%d" % k, "__cq%d" % k
+                ann = ""
+                if k in specs:
+                    ty, ens = specs[k]
+                    ann = " -> ( %s : %s ) ensures %s" % (res, ty, ens.replace("__p", name).replace("__q", res))
+                new = [Tok("p", "|", t.a, t.a), Tok("id", name, t.a, t.a), Tok("p", "|", t.a, t.a)]
+                if ann:
+                    new.append(Tok("raw", ann, t.a, t.a))
+                new += [Tok("p", "{", t.a, t.a), Tok("id", "let", t.a, t.a)] + pat + [Tok("p", "=", t.a, t.a), Tok("id", name, t.a, t.a), Tok("p", ";", t.a, t.a)] + expr + [Tok("p", "}", t.a, t.a)]
+                out = out[:i] + new + out[b1:]
+                rules.fired.add("R24")
+                k += 1
+                i += len(new)
+                continue
+        i += 1
+    return out
+
+
 def drop_unused_rev(body, rules):
     """R16: `for _x in ( <lo> .. <hi> ) . rev ( ) {` -> `for _x in <lo> .. <hi> {` when the loop variable starts with `_`
     and does not occur in the loop body: the reversed range yields the same number of values and nothing observes their
@@ -742,6 +793,7 @@ class FnSpec:
         self.loops = {}
         self.loopbodies = {}
         self.afterloops = {}
+        self.closures = {}
         self.ticks = None
         self.boolor = []
         self.after = []
@@ -802,6 +854,9 @@ def parse_fn_directive(lines, defaults):
             fs.decreases = txt
         elif cur == "head":
             fs.head += txt + "\n"
+        elif cur.startswith("closure"):
+            ty, _, ens = txt.partition(" ensures ")
+            fs.closures[int(cur.split()[1])] = (ty.strip(), ens.strip())
         elif cur.startswith("afterloop"):
             fs.afterloops[int(cur.split()[1])] = txt
         elif cur.startswith("loopbody"):
@@ -824,7 +879,7 @@ def parse_fn_directive(lines, defaults):
 
     for ln in lines[1:]:
         s = ln.strip()
-        m = re.match(r'(requires|ensures|decreases|head|props|ticks|boolor|afterloop\s+\d+|loopbody\s+\d+|loop\s+\d+|before\s+"[^"]*"(?:\s+\d+)?|after\s+"[^"]*"(?:\s+\d+)?)(?=\s|$)\s*(.*)$', s)
+        m = re.match(r'(requires|ensures|decreases|head|props|ticks|boolor|closure\s+\d+|afterloop\s+\d+|loopbody\s+\d+|loop\s+\d+|before\s+"[^"]*"(?:\s+\d+)?|after\s+"[^"]*"(?:\s+\d+)?)(?=\s|$)\s*(.*)$', s)
         if m and (cur is None or not ln.startswith("    ")):
             flush()
             cur = m.group(1)
@@ -907,6 +962,9 @@ def render_fn(idx, fs, table, ctx):
     if fs.selfty:
         # R11: re-home a foreign-trait method as a free function
         head_s = [fs.selfty if s == "Self" else s for s in head_s]
+        if fs.extra.get("gen"):
+            # the impl's generic parameters move to the free function (`gen=<F:Fixed>`)
+            head_s.insert(2, fs.extra["gen"].replace(":", " : "))
         rules.fired.add("R11")
     parts = []
     if fs.quals is None:
@@ -915,6 +973,13 @@ def render_fn(idx, fs, table, ctx):
     if ret is not None:
         ret_s = rewrite_tokens(ret, rules, opts)
         if fs.selfty:
+            if fs.extra.get("err"):
+                # the impl's associated type `Self::Err` written out (`err=<type>`)
+                j = 0
+                while j + 2 < len(ret_s):
+                    if ret_s[j:j + 3] == ["Self", "::", "Err"]:
+                        ret_s[j:j + 3] = [fs.extra["err"]]
+                    j += 1
             ret_s = [fs.selfty if s == "Self" else s for s in ret_s]
         parts.append("-> (%s: %s)" % (fs.ret, " ".join(ret_s)))
     if where:
@@ -952,6 +1017,26 @@ def render_fn(idx, fs, table, ctx):
     body = desugar_enumerate(body, rules)
     body = desugar_ref_pattern_for(body, rules)
     body = desugar_iter_mut(body, rules)
+    body = desugar_closure_pattern(body, rules, fs.closures)
+    if fs.extra.get("etactor"):
+        # R25: a tuple-struct constructor passed as a function value, `. map ( Name )`, is eta-expanded to the closure
+        # `| __cv | -> ( __cr : Type ) ensures __cr == Name ( __cv ) { Name ( __cv ) }` (Verus does not accept a constructor as a function
+        # value; the constructor used as a function IS this function).  `etactor=Name/Type`
+        cname, _, ctype = fs.extra["etactor"].partition("/")
+        nb = []
+        j = 0
+        while j < len(body):
+            if j + 4 < len(body) and [t.s for t in body[j:j + 5]] == [".", "map", "(", cname, ")"]:
+                a0 = body[j].a
+                nb += body[j:j + 3]
+                nb.append(Tok("raw", "| __cv | -> ( __cr : %s ) ensures __cr == %s ( __cv ) { %s ( __cv ) }" % (ctype, cname, cname), a0, a0))
+                nb.append(body[j + 4])
+                rules.fired.add("R25")
+                j += 5
+                continue
+            nb.append(body[j])
+            j += 1
+        body = nb
     if mut_self:
         # R23 (see the signature): every `self` of the body is the mutable local copy
         body = [Tok(t.k, "self_m", t.a, t.b) if (t.k == "id" and t.s == "self") else t for t in body]
